@@ -11,6 +11,15 @@ from vf import common as C
 ID = "C19"
 LEAN_MODULE = "Basyx.Props.C19"
 LEVEL = "proof"
+
+MANIFEST = {
+    "text": "Lean theorems for ALL add/delete histories of the container model: bookkeeping invariant (refcounts = number of names per "
+            "content, no content dropped while named), refinement of every history to the abstract map name -> (bytes, content type) "
+            "with identical outputs, fresh-name/no-disturbance laws, termination of the conflict loop (pigeonhole over the injective "
+            "_NNNN suffix). The model is tied to the code by an exhaustive (short) + random (long) differential run after every call.",
+    "note": "sha256 assumed injective (modelled as identity); CPython dict semantics; harness/generators trusted; contents ASCII in the tie",
+    "technique": "Lean 4 proof: invariant by induction over operations + refinement to an abstract map; differential correspondence with the Python class",
+}
 ASSUMPTIONS = [
     "sha256 is injective on the contents used (modelled as the identity on content)",
     "CPython dict semantics (insertion order, in-place update) as modelled by Basyx.AList",
@@ -30,6 +39,9 @@ def _container():
 
 def impl_step(c, op: List[Any]) -> Any:
     k = op[0]
+    if k == "view":
+        return [impl_step(c, ["iter"]), [[impl_step(c, ["contains", n]), impl_step(c, ["ctype", n]),
+                                          impl_step(c, ["write", n]), impl_step(c, ["sha", n])] for n in op[1]]]
     try:
         if k == "add":
             return ["name", c.add_file(op[1], io.BytesIO(op[2].encode()), op[3])]
@@ -56,15 +68,14 @@ def impl_step(c, op: List[Any]) -> Any:
 
 
 def observe_ops(names) -> List[List[Any]]:
-    ops: List[List[Any]] = [["iter"]]
-    for n in names:
-        ops += [["contains", n], ["ctype", n], ["write", n], ["sha", n]]
-    return ops
+    return [["view", list(names)]]
 
 
 def canon_model(out):
-    if isinstance(out, list) and out and out[0] == "hash":
-        return ["hash", hashlib.sha256(out[1].encode()).hexdigest()]
+    if isinstance(out, list):
+        if len(out) == 2 and out[0] == "hash" and isinstance(out[1], str):
+            return ["hash", hashlib.sha256(out[1].encode()).hexdigest()]
+        return [canon_model(x) for x in out]
     return out
 
 
@@ -118,11 +129,11 @@ def correspond(ctx: C.Ctx, cov: C.Coverage) -> List[C.Disagreement]:
     ac_cases = [(n, i) for n in NAMES + EXTRA_NAMES for i in (1, 2, 9, 10, 999, 9999, 10000, 123456)]
     from basyx.aas.adapter.aasx import DictSupplementaryFileContainer as D
     for n, i in ac_cases:
-        lines.append(["files", "append_counter", n, i])
+        lines.append(["append_counter", n, i])
         impl_out.append(D._append_counter(n, i))
         index.append(("append_counter", (n, i)))
     for si, seq in enumerate(seqs):
-        lines.append(["reset", "files"])
+        lines.append(["reset"])
         impl_out.append(["reset"])
         index.append((si, -1))
         c = _container()
@@ -133,7 +144,7 @@ def correspond(ctx: C.Ctx, cov: C.Coverage) -> List[C.Disagreement]:
                 seen.append(op[1])
             full = [op] + observe_ops(seen)
             for j, o in enumerate(full):
-                lines.append(["files"] + o)
+                lines.append(o)
                 r = impl_step(c, o)
                 if j == 0 and r[0] == "name" and r[1] not in seen:
                     seen.append(r[1])
@@ -152,7 +163,7 @@ def correspond(ctx: C.Ctx, cov: C.Coverage) -> List[C.Disagreement]:
     cov.extra["exhaustive_sequences"] = exhaustive_n
     cov.extra["append_counter_cases"] = len(ac_cases)
     cov.samples = [seqs[exhaustive_n - 1], seqs[-1][:12]]
-    model_out = C.run_model(lines)
+    model_out = C.run_model("C19", lines)
     dis: List[C.Disagreement] = []
     if len(model_out) != len(impl_out):
         dis.append(C.Disagreement("driver output length", None, len(model_out), len(impl_out)))
